@@ -288,9 +288,93 @@ def targeted_reuse(rnd):
     return f"Select(Where(EventDataset(), lambda {E}: Count({E}.jets) > 0), lambda {E}: {inner})"
 
 
+def scale_cases():
+    """queries near the size where the interpreter's stack becomes the limit (a RecursionError is not judged, a result is)"""
+    out = []
+    for n in (96, 104, 118, 132):
+        q = "Select(EventDataset(), lambda e0: e0.x)"
+        for i in range(n):
+            q = f"Select({q}, lambda v{i % 7}: v{i % 7} + {i % 5})" if i % 3 else f"Where({q}, lambda w{i % 4}: w{i % 4} > -{i + 1})"
+        out.append((q, f"scale:chain-of-{n}-fusable-operators"))
+    for n in (99, 112, 140):
+        out.append((f"Select(EventDataset(), lambda e: (lambda s, t: {' + '.join(['s', 't'] * (n // 2))})(e.x, e.y))", f"scale:called-lambda-with-{n}-term-body"))
+        out.append((f"Select(Select(EventDataset(), lambda e: (e.x, e.y)), lambda p: {' + '.join(['p[0]', 'p[1]'] * (n // 2))})", f"scale:fused-projection-with-{n}-term-body"))
+    return out
+
+
+def concurrent_generated_names(ctx, rounds):
+    """Invariant at a hook: the names arg_name() hands to ONE simplification are pairwise different, also while other threads
+    simplify queries that already contain arg_N names (which makes the library move its process-wide counter).  Thread B
+    simplifies a chain that needs many fresh names, threads A1/A2 keep simplifying small queries holding arg_N names."""
+    import sys
+    import threading
+
+    import func_adl.ast.function_simplifier as fs
+    from func_adl.ast.function_simplifier import simplify_chained_calls
+
+    handed = threading.local()
+    orig = fs.arg_name
+
+    def arg_name():
+        n = orig()
+        lst = getattr(handed, "names", None)
+        if lst is not None:
+            lst.append(n)
+        return n
+
+    fs.arg_name = arg_name
+    big = "Select(EventDataset(), lambda e0: e0.x)"
+    for i in range(30):
+        big = f"Select({big}, lambda v{i}: (v{i}, v{i} + 1)[1])"
+    big_q = astx.parse_expr(big)
+    small_q = astx.parse_expr("Select(Select(EventDataset(), lambda arg_0: arg_0.x), lambda arg_1: arg_1 + 1)")
+    stop = threading.Event()
+    dup = []
+    old_interval = sys.getswitchinterval()
+    sys.setswitchinterval(1e-6)
+
+    def small():
+        while not stop.is_set():
+            simplify_chained_calls().visit(astx.clone(small_q))
+
+    ths = [threading.Thread(target=small, daemon=True) for _ in range(2)]
+    for t in ths:
+        t.start()
+    total = 0
+    try:
+        for r in range(rounds):
+            handed.names = []
+            simplify_chained_calls().visit(astx.clone(big_q))
+            names = handed.names
+            total += len(names)
+            if len(set(names)) != len(names):
+                dup.append(sorted({n for n in names if names.count(n) > 1})[:4])
+    finally:
+        stop.set()
+        for t in ths:
+            t.join(timeout=30)
+        sys.setswitchinterval(old_interval)
+        fs.arg_name = orig
+    ctx.case("concurrent-generated-names", True)
+    ctx.count("concurrent-name-monitor:simplifications-observed", rounds)
+    ctx.count("concurrent-name-monitor:names-observed", total)
+    if dup:
+        ctx.violation("generated-name-handed-out-twice-to-one-simplification:concurrent", f"while two other threads simplified queries holding arg_N names, {len(dup)} of {rounds} simplifications of one chain were handed the same generated name twice, e.g. {dup[0]}", {"concurrent": True, "rounds": rounds})
+
+
 def shard_main(ctx):
     install_rule_counters()
     import random
+
+    if ctx.shard == 2:
+        concurrent_generated_names(ctx, 40 if ctx.tier == "quick" else 1500)
+
+    if ctx.shard < 4:
+        rnd = random.Random(777)
+        data = datasets(rnd)
+        for text, tag in scale_cases():
+            ctx.count("scale-cases")
+            run_case(ctx, astx.parse_expr(text), data, {"naming": tag, "directed": tag})
 
     # directed traps on every shard 0 run
     if ctx.shard == 0:
